@@ -326,8 +326,8 @@ def _pseudo_chisqr_weight_rule(ctx: Ctx, model) -> None:
                 raise AnalysisError(f"{fi.qual}: producer of the pseudo chi-squared weight not understood: {unknown[0]}")
             else:
                 ctx.ok()
-    if n < 3:
-        raise AnalysisError(f"R9.4: only {n} pseudo chi-squared sites found in the Kramers-Kronig package (floor 3)")
+    if n < 1:
+        raise AnalysisError("R9.4: no pseudo chi-squared site found in the Kramers-Kronig package")
 
 
 def _default_none(fn: ast.FunctionDef, name: str) -> bool:
